@@ -1,4 +1,4 @@
-import ElkVerif.Proofs.Civil
+import ElkVerif.Proofs.Date
 import ElkVerif.Model.DateFmt
 /-!
 # C22 — Calendar arithmetic is exact, never wraps, and formatting round-trips
@@ -31,5 +31,90 @@ theorem civil_follows_calendar :
     ∀ y m d, Valid y m d →
       daysFromCivil (nextDay y m d).1 (nextDay y m d).2.1 (nextDay y m d).2.2 = daysFromCivil y m d + 1 :=
   ⟨daysFromCivil_epoch, daysFromCivil_nextDay⟩
+
+/-! ## `Date` ± span: exact on the calendar, never wraps
+
+`calendarAdd` is the specification: go `days` days along the calendar, then `months` months (counted on
+`year·12 + month`), keep the day of month but clamp it to the length of the target month. -/
+
+/-- what `date + (months, days)` means on the calendar -/
+def calendarAdd (y m d months days : Int) : Int × Int × Int :=
+  let c := civilFromDays (daysFromCivil y m d + days)
+  let tot := c.1 * 12 + (c.2.1 - 1) + months
+  let y2 := tot / 12
+  let m2 := tot % 12 + 1
+  (y2, m2, min c.2.2 (daysInMonth y2 m2))
+
+/-- `Date + span` (`Date.AddDateSpan`): for every real date of the representable range and every span, the
+result is the calendar result when its year is representable and `Date::InvalidYearError` otherwise —
+it never wraps. (`range_checked` and `add_exact` in one statement.) -/
+theorem add_span_calendar (y m d : Int) (hy : InRange y) (hv : Valid y m d) (s : DateSpan) :
+    Date.addDateSpan (makeDate y m d) s =
+      let r := calendarAdd y m d s.months s.days
+      (if InRange r.1 then .ok (makeDate r.1 r.2.1 r.2.2) else .error .year : Except Err Date) := by
+  obtain ⟨hsp, hval⟩ := date_add_spec y m d hy hv s.months s.days
+  simp only [calendarAdd]
+  unfold Date.addDateSpan DateTime.addDateSpan
+  rw [hsp]
+  exact checkedDate_midnight _ _ _ hval
+
+/-- `Date - span` is `Date + (-span)` on the calendar, with the same range check -/
+theorem sub_span_calendar (y m d : Int) (hy : InRange y) (hv : Valid y m d) (s : DateSpan) :
+    Date.subDateSpan (makeDate y m d) s =
+      let r := calendarAdd y m d (-s.months) (-s.days)
+      (if InRange r.1 then .ok (makeDate r.1 r.2.1 r.2.2) else .error .year : Except Err Date) :=
+  add_span_calendar y m d hy hv ⟨-s.months, -s.days⟩
+
+/-- adding `n` days is exact: the day number grows by exactly `n` (all `n`, also beyond ±106751 days) -/
+theorem add_days_exact (y m d : Int) (hy : InRange y) (hv : Valid y m d) (n : Int) (r : Date)
+    (h : Date.addDateSpan (makeDate y m d) ⟨0, n⟩ = .ok r) :
+    daysFromCivil r.year r.month r.day = daysFromCivil y m d + n := by
+  rw [add_span_calendar y m d hy hv] at h
+  simp only [calendarAdd, Int.add_zero] at h
+  have hcv := civilFromDays_valid (daysFromCivil y m d + n)
+  generalize hc : civilFromDays (daysFromCivil y m d + n) = c at *
+  have hy2 : (c.1 * 12 + (c.2.1 - 1)) / 12 = c.1 := by have := hcv.1; have := hcv.2.1; omega
+  have hm2 : (c.1 * 12 + (c.2.1 - 1)) % 12 + 1 = c.2.1 := by have := hcv.1; have := hcv.2.1; omega
+  rw [hy2, hm2] at h
+  have hmin : min c.2.2 (daysInMonth c.1 c.2.1) = c.2.2 := by have := hcv.2.2.2; omega
+  rw [hmin] at h
+  split at h
+  · rename_i hr
+    injection h with h; subst h
+    have hb := valid_bounds hcv
+    obtain ⟨e1, e2, e3⟩ := makeDate_fields c.1 c.2.1 c.2.2 hr hb.1 hb.2
+    rw [e1, e2, e3, ← hc]; exact daysFromCivil_civilFromDays _
+  · cases h
+
+/-- adding `k` months keeps the day of month, clamped to the last day of the target month -/
+theorem month_add_clamp_spec (y m d : Int) (hy : InRange y) (hv : Valid y m d) (k : Int) :
+    Date.addDateSpan (makeDate y m d) ⟨k, 0⟩ =
+      let tot := y * 12 + (m - 1) + k
+      (if InRange (tot / 12) then .ok (makeDate (tot / 12) (tot % 12 + 1) (min d (daysInMonth (tot / 12) (tot % 12 + 1))))
+      else .error .year : Except Err Date) := by
+  rw [add_span_calendar y m d hy hv]
+  simp only [calendarAdd, Int.add_zero, civilFromDays_daysFromCivil y m d hv]
+
+/-- full-strength `range_checked`: whatever the receiver's bits and the span, a result is either an error or
+a date whose fields are those of the exact calendar result, inside the representable range -/
+theorem range_checked (d : Date) (s : DateSpan) :
+    (∃ r, Date.addDateSpan d s = .ok r ∧ InRange r.year ∧
+        r.year = DateTime.year (d.toDateTime.addDateSpan s) ∧ r.month = DateTime.month (d.toDateTime.addDateSpan s) ∧
+        r.day = DateTime.day (d.toDateTime.addDateSpan s)) ∨
+    (Date.addDateSpan d s = .error .year ∧ ¬ InRange (DateTime.year (d.toDateTime.addDateSpan s))) := by
+  unfold Date.addDateSpan
+  rcases checkedDate_cases (d.toDateTime.addDateSpan s) with ⟨r, hr⟩ | he
+  · left
+    obtain ⟨h1, h2, h3, h4⟩ := checkedDate_ok _ r hr
+    exact ⟨r, hr, h4, h1, h2, h3⟩
+  · right; exact ⟨he, (checkedDate_err _).mp he⟩
+
+/-- the witness quoted in the property now raises -/
+example : Date.addDateSpan (makeDate 4194303 12 31) ⟨0, 1⟩ = .error .year := by decide
+example : Date.addDateSpan (makeDate 4194303 12 31) ⟨0, -1⟩ = .ok (makeDate 4194303 12 30) := by decide
+example : Date.addDateSpan (makeDate 2000 1 1) ⟨0, 106752⟩ = .ok (makeDate 2292 4 11) := by decide
+example : Date.subDateSpan (makeDate 2023 3 31) ⟨1, 0⟩ = .ok (makeDate 2023 2 28) := by decide
+example : Date.subDateSpan (makeDate (-1) 3 15) ⟨0, 0⟩ = .ok (makeDate (-1) 3 15) := by decide
+example : InRange 2024 ∧ Valid 2024 2 29 := by decide
 
 end Elk.C22
